@@ -33,7 +33,7 @@
 From Coq Require Import List NArith ZArith Bool.
 Import ListNotations.
 Require Import Parser SBase SPrim SDir SScalar SFetch Pipe FlowFold FlowScalarProofs PlainScalarProofs QuotedFoldProofs FoldPhysicalProofs.
-Require Import Drivers FlowText ScalarContextQuoted ScalarContextFlow.
+Require Import Drivers FlowText ScalarContextQuoted ScalarContextFlow ScalarContext2Plain ScalarContext2PlainDoc ScalarContext2BlockSib ScalarContext2PlainSib ScalarContext2PlainSibDoc ScalarContext2Quoted ScalarContext2QuotedSibDoc.
 Open Scope N_scope.
 
 Definition C04_full : Prop := C04_quoted_full /\ C04_plain_full.
@@ -433,3 +433,271 @@ Qed.
 (* ws_only is a real restriction: a comment or a sibling key behind the scalar is outside the class *)
 Example C04_ws_only_excludes : ws_only [32; 35; 99] = false /\ ws_only [10; 98; 58; 32; 49] = false /\ ws_only [32; 10; 10] = true.
 Proof. repeat split. Qed.
+
+(* ---- T8: PLAIN scalars in DOCUMENT context, text -> tokens -> events (Proofs/ScalarContext2Plain*.v) ---------------- *)
+(* T4 for a follower of spaces and line feeds WITH the input that is left: none (plain_blanks consumes the trailing blanks
+   and line breaks up to the end of the input).  T4 itself hides the final scanner state; its follower analysis is redone
+   for this class with a postcondition that keeps the state. *)
+Theorem C04_plain_ws_partial :
+  forall (F n : nat) (first : list N) (more : list (brk_layout * list N)) (rest : list N) (s : sc strin),
+    plain_layout_wf (0 <? sc_flow_level s) n first more = true ->
+    si_chars (sc_in s) = plain_render first more ++ rest ->
+    ws_only rest = true ->
+    (eff_indent s < Z.of_nat n)%Z ->
+    (eff_indent s < Z.of_N (m_col (sc_mark s)))%Z ->
+    (sc_lws s = true -> m_col (sc_mark s) = 0 -> marker_at_col0 [] first = false) ->
+    (2 * length (si_chars (sc_in s)) + 10 <= F)%nat ->
+    exists sp s',
+      scan_plain_scalar str_ops F s = Ok ((sp, TScalar Plain (plain_text first more)), s')
+      /\ sp_start sp = sc_mark s /\ si_chars (sc_in s') = [].
+Proof. exact scan_plain_scalar_ws. Qed.
+Print Assumptions C04_plain_ws_partial.
+
+(* For EVERY presentation (first line, (break layout, line) list) of a plain scalar that plain_layout_wf false n allows in
+   block context -- a first character that is no indicator or - ? : in front of a non-space character, inner blanks and tabs,
+   ':' and '#' inside words, folded breaks with padding, empty lines, tabs behind the indentation, LF / CR / CR LF, no
+   document marker at column 0 of a continuation line -- followed by spaces and line feeds only ([ws_only rest]: the scalar
+   ends the input), the whole model pipeline on the text  rendering ++ rest, alone / behind "key: " / behind "- ", delivers the
+   scalar event with exactly plain_text, style Plain.  n is the least indentation of the continuation lines: any n at top
+   level (there the first line must not be a document marker: c-forbidden), n >= 1 as a mapping value and as a sequence entry
+   (scan_plain_scalar compares with the indentation of the enclosing block collection; the one-column raise behind "key:" is
+   taken back by unroll_non_block_indents, so unlike for quoted scalars a value continued at column 1 is covered).
+   A one-line scalar at top level is a possible simple key when the input ends, a multi-line one has gone stale: both paths
+   are in [end_unit]. *)
+Theorem C04_plain_document_top : forall (n : nat) first more rest,
+  plain_layout_wf false n first more = true -> ws_only rest = true -> marker_at_col0 [] first = false ->
+  map fst (fst (run_str (plain_render first more ++ rest)))
+  = [EStreamStart; EDocumentStart false; EScalar (plain_text first more) Plain 0 None; EDocumentEnd; EStreamEnd]
+  /\ snd (run_str (plain_render first more ++ rest)) = PDone.
+Proof. exact run_plain_top. Qed.
+Print Assumptions C04_plain_document_top.
+
+Theorem C04_plain_document_value : forall kw (n : nat) first more rest,
+  key_ok kw = true -> plain_layout_wf false n first more = true -> ws_only rest = true -> (1 <= n)%nat ->
+  map fst (fst (run_str (kw ++ 58 :: 32 :: plain_render first more ++ rest)))
+  = [EStreamStart; EDocumentStart false; EMappingStart 0 None; EScalar kw Plain 0 None;
+     EScalar (plain_text first more) Plain 0 None; EMappingEnd; EDocumentEnd; EStreamEnd]
+  /\ snd (run_str (kw ++ 58 :: 32 :: plain_render first more ++ rest)) = PDone.
+Proof. exact run_plain_value. Qed.
+Print Assumptions C04_plain_document_value.
+
+Theorem C04_plain_document_entry : forall (n : nat) first more rest,
+  plain_layout_wf false n first more = true -> ws_only rest = true -> (1 <= n)%nat ->
+  map fst (fst (run_str (45 :: 32 :: plain_render first more ++ rest)))
+  = [EStreamStart; EDocumentStart false; ESequenceStart 0 None; EScalar (plain_text first more) Plain 0 None; ESequenceEnd;
+     EDocumentEnd; EStreamEnd]
+  /\ snd (run_str (45 :: 32 :: plain_render first more ++ rest)) = PDone.
+Proof. exact run_plain_entry. Qed.
+Print Assumptions C04_plain_document_entry.
+
+(* instances, every hypothesis evaluated.  Three lines: the first starts with '-' in front of a letter and has an inner
+   blank; a folded break with trailing padding, an empty line and a tab behind the indentation; '#' and ':' inside a word; a
+   CR LF break; followed by a blank and two line feeds.
+   -a b <LF><LF>  <TAB>c#d:e<CR><LF>  f <LF><LF> *)
+Definition pctx_b1 : brk_layout := {| bl_escaped := false; bl_pad := [32]; bl_empties := [[]]; bl_indent := [32; 32; 9]; bl_nl := NlLF |}.
+Definition pctx_b2 : brk_layout := {| bl_escaped := false; bl_pad := []; bl_empties := []; bl_indent := [32; 32]; bl_nl := NlCRLF |}.
+Definition pctx_first : list N := [45; 97; 32; 98].
+Definition pctx_more : list (brk_layout * list N) := [(pctx_b1, [99; 35; 100; 58; 101]); (pctx_b2, [102])].
+Example C04_plain_document_instances :
+  plain_layout_wf false 2 pctx_first pctx_more = true /\
+  plain_text pctx_first pctx_more = [45; 97; 32; 98; 10; 99; 35; 100; 58; 101; 32; 102] /\
+  plain_render pctx_first pctx_more ++ [32; 10; 10]
+  = [45; 97; 32; 98; 32; 10; 10; 32; 32; 9; 99; 35; 100; 58; 101; 13; 10; 32; 32; 102; 32; 10; 10] /\
+  (* top level *)
+  map fst (fst (run_str (plain_render pctx_first pctx_more ++ [32; 10; 10])))
+  = [EStreamStart; EDocumentStart false; EScalar [45; 97; 32; 98; 10; 99; 35; 100; 58; 101; 32; 102] Plain 0 None; EDocumentEnd; EStreamEnd] /\
+  (* mapping value: "key: " in front, the same text *)
+  map fst (fst (run_str ([107; 101; 121] ++ 58 :: 32 :: plain_render pctx_first pctx_more ++ [32; 10; 10])))
+  = [EStreamStart; EDocumentStart false; EMappingStart 0 None; EScalar [107; 101; 121] Plain 0 None;
+     EScalar [45; 97; 32; 98; 10; 99; 35; 100; 58; 101; 32; 102] Plain 0 None; EMappingEnd; EDocumentEnd; EStreamEnd] /\
+  (* sequence entry *)
+  map fst (fst (run_str (45 :: 32 :: plain_render pctx_first pctx_more ++ [32; 10; 10])))
+  = [EStreamStart; EDocumentStart false; ESequenceStart 0 None; EScalar [45; 97; 32; 98; 10; 99; 35; 100; 58; 101; 32; 102] Plain 0 None;
+     ESequenceEnd; EDocumentEnd; EStreamEnd].
+Proof.
+  split; [reflexivity|]. split; [reflexivity|]. split; [reflexivity|].
+  split; [exact (proj1 (run_plain_top 2 pctx_first pctx_more [32; 10; 10] eq_refl eq_refl eq_refl))|].
+  split; [exact (proj1 (run_plain_value [107; 101; 121] 2 pctx_first pctx_more [32; 10; 10] eq_refl eq_refl eq_refl ltac:(repeat constructor)))|].
+  exact (proj1 (run_plain_entry 2 pctx_first pctx_more [32; 10; 10] eq_refl eq_refl ltac:(repeat constructor))).
+Qed.
+(* top level: a continuation line at column 0 (n = 0), no final line break; and the one-line scalar "a" that ends the input
+   (the pending-simple-key path); "key: a<LF> b" continued at column 1 *)
+Definition pctx_b0 : brk_layout := {| bl_escaped := false; bl_pad := []; bl_empties := []; bl_indent := []; bl_nl := NlLF |}.
+Definition pctx_b3 : brk_layout := {| bl_escaped := false; bl_pad := []; bl_empties := []; bl_indent := [32]; bl_nl := NlLF |}.
+Example C04_plain_document_top_instances :
+  plain_layout_wf false 0 [97] [(pctx_b0, [98])] = true /\ plain_render [97] [(pctx_b0, [98])] ++ [] = [97; 10; 98] /\
+  map fst (fst (run_str (plain_render [97] [(pctx_b0, [98])] ++ [])))
+  = [EStreamStart; EDocumentStart false; EScalar [97; 32; 98] Plain 0 None; EDocumentEnd; EStreamEnd] /\
+  map fst (fst (run_str (plain_render [97] [] ++ [])))
+  = [EStreamStart; EDocumentStart false; EScalar [97] Plain 0 None; EDocumentEnd; EStreamEnd] /\
+  [107] ++ 58 :: 32 :: plain_render [97] [(pctx_b3, [98])] ++ [10] = [107; 58; 32; 97; 10; 32; 98; 10] /\
+  map fst (fst (run_str ([107] ++ 58 :: 32 :: plain_render [97] [(pctx_b3, [98])] ++ [10])))
+  = [EStreamStart; EDocumentStart false; EMappingStart 0 None; EScalar [107] Plain 0 None;
+     EScalar [97; 32; 98] Plain 0 None; EMappingEnd; EDocumentEnd; EStreamEnd].
+Proof.
+  split; [reflexivity|]. split; [reflexivity|].
+  split; [exact (proj1 (run_plain_top 0 [97] [(pctx_b0, [98])] [] eq_refl eq_refl eq_refl))|].
+  split; [exact (proj1 (run_plain_top 0 [97] [] [] eq_refl eq_refl eq_refl))|].
+  split; [reflexivity|].
+  exact (proj1 (run_plain_value [107] 1 [97] [(pctx_b3, [98])] [10] eq_refl eq_refl eq_refl ltac:(repeat constructor))).
+Qed.
+(* the side conditions are real restrictions: a document marker as the first line at top level, ": " inside a line, a
+   continuation line that is a marker at column 0, a continuation line at column 0 for n = 1 *)
+Example C04_plain_document_excludes :
+  marker_at_col0 [] [45; 45; 45] = true /\ marker_at_col0 [] [45; 45; 45; 32; 97] = true /\ marker_at_col0 [] [45; 45; 45; 97] = false /\
+  plain_layout_wf false 0 [97; 58; 32; 98] [] = false /\
+  plain_layout_wf false 0 [97] [(pctx_b0, [46; 46; 46])] = false /\
+  plain_layout_wf false 1 [97] [(pctx_b0, [98])] = false.
+Proof. repeat split. Qed.
+
+(* ---- T9: a FOLLOWER behind a plain scalar in document context (Proofs/ScalarContext2Pos.v, ScalarContext2PlainSib*.v) - *)
+(* T4 for the follower class "sibling line": white space (spaces, line feeds), a line feed, then a line that starts at column
+   0 with a character that is neither blank nor break nor NUL (sib_head) -- inside a block collection (effective indentation
+   >= 0) that line ends the scalar -- WITH the input that is left (the sibling line) and the flags the scanner leaves
+   (leading_whitespace, hence simple_key_allowed: a key may start on the sibling line). *)
+Theorem C04_plain_sibling_partial :
+  forall (F n : nat) (first : list N) (more : list (brk_layout * list N)) (ws : list N) (x : N) (r : list N) (s : sc strin),
+    plain_layout_wf false n first more = true -> sc_flow_level s = 0 ->
+    si_chars (sc_in s) = plain_render first more ++ ws ++ 10 :: x :: r ->
+    ws_only ws = true -> (is_blank x = false /\ is_break x = false /\ (x =? 0) = false) ->
+    (0 <= eff_indent s)%Z ->
+    (eff_indent s < Z.of_nat n)%Z ->
+    (eff_indent s < Z.of_N (m_col (sc_mark s)))%Z ->
+    (2 * length (si_chars (sc_in s)) + 10 <= F)%nat ->
+    exists sp s',
+      scan_plain_scalar str_ops F s = Ok ((sp, TScalar Plain (plain_text first more)), s')
+      /\ sp_start sp = sc_mark s /\ si_chars (sc_in s') = x :: r /\ sc_lws s' = true /\ sc_ska s' = true.
+Proof. exact scan_plain_scalar_sib. Qed.
+Print Assumptions C04_plain_sibling_partial.
+
+(* The plain scalar -- EVERY presentation plain_layout_wf false n allows, n >= 1, multi-line included -- is the value of the
+   FIRST pair of a two-pair top-level mapping / the FIRST entry of a two-entry top-level sequence:
+       kw ": " rendering ws LF kw2 ": " w tail          "- " rendering ws LF "- " w tail
+   ws, tail: spaces and line feeds; kw, kw2 one-word plain keys; w a one-line plain scalar of the specification
+   (plain_layout_wf false 0 w []); the text holds no NUL (the position theorem of C12 that locates the scanner behind the
+   scalar is stated for NUL-free inputs).  The whole model pipeline yields the scalar event with plain_text FOLLOWED BY the
+   sibling's events.  Behind the scalar the scanner stands at column 0 of a later line (position invariant MarkOK of
+   Proofs/ScanPos.v, established at the scalar by the skeleton lemmas restated with explicit positions), so the simple key
+   saved for the scalar is stale and the token is handed out; the stack left by scan_plain_scalar (unchanged, or without the
+   one-column raise of "key:") fetches like r3c03's at_tok state. *)
+Theorem C04_plain_document_value_sibling : forall kw (n : nat) first more ws kw2 w tail,
+  key_ok kw = true -> plain_layout_wf false n first more = true -> (1 <= n)%nat -> ws_only ws = true ->
+  key_ok kw2 = true -> plain_layout_wf false 0 w [] = true -> ws_only tail = true ->
+  forallb (fun c => negb (c =? 0)) (kw ++ 58 :: 32 :: plain_render first more ++ ws ++ 10 :: kw2 ++ 58 :: 32 :: w ++ tail) = true ->
+  map fst (fst (run_str (kw ++ 58 :: 32 :: plain_render first more ++ ws ++ 10 :: kw2 ++ 58 :: 32 :: w ++ tail)))
+  = [EStreamStart; EDocumentStart false; EMappingStart 0 None; EScalar kw Plain 0 None; EScalar (plain_text first more) Plain 0 None;
+     EScalar kw2 Plain 0 None; EScalar w Plain 0 None; EMappingEnd; EDocumentEnd; EStreamEnd]
+  /\ snd (run_str (kw ++ 58 :: 32 :: plain_render first more ++ ws ++ 10 :: kw2 ++ 58 :: 32 :: w ++ tail)) = PDone.
+Proof. exact run_plain_value_sib. Qed.
+Print Assumptions C04_plain_document_value_sibling.
+
+Theorem C04_plain_document_entry_sibling : forall (n : nat) first more ws w tail,
+  plain_layout_wf false n first more = true -> (1 <= n)%nat -> ws_only ws = true ->
+  plain_layout_wf false 0 w [] = true -> ws_only tail = true ->
+  forallb (fun c => negb (c =? 0)) (45 :: 32 :: plain_render first more ++ ws ++ 10 :: 45 :: 32 :: w ++ tail) = true ->
+  map fst (fst (run_str (45 :: 32 :: plain_render first more ++ ws ++ 10 :: 45 :: 32 :: w ++ tail)))
+  = [EStreamStart; EDocumentStart false; ESequenceStart 0 None; EScalar (plain_text first more) Plain 0 None; EScalar w Plain 0 None;
+     ESequenceEnd; EDocumentEnd; EStreamEnd]
+  /\ snd (run_str (45 :: 32 :: plain_render first more ++ ws ++ 10 :: 45 :: 32 :: w ++ tail)) = PDone.
+Proof. exact run_plain_entry_sib. Qed.
+Print Assumptions C04_plain_document_entry_sibling.
+
+(* instances, every hypothesis evaluated: the three-line scalar of C04_plain_document_instances, a blank and an empty line behind
+   it, the sibling "k2: v w" / "- v w" and a final line feed.
+   key: -a b <LF><LF>  <TAB>c#d:e<CR><LF>  f <LF><LF>k2: v w<LF> *)
+Example C04_plain_document_sibling_instances :
+  [107; 101; 121] ++ 58 :: 32 :: plain_render pctx_first pctx_more ++ [32; 10] ++ 10 :: [107; 50] ++ 58 :: 32 :: [118; 32; 119] ++ [10]
+  = [107; 101; 121; 58; 32; 45; 97; 32; 98; 32; 10; 10; 32; 32; 9; 99; 35; 100; 58; 101; 13; 10; 32; 32; 102; 32; 10; 10;
+     107; 50; 58; 32; 118; 32; 119; 10] /\
+  map fst (fst (run_str ([107; 101; 121] ++ 58 :: 32 :: plain_render pctx_first pctx_more ++ [32; 10] ++ 10 :: [107; 50] ++ 58 :: 32 :: [118; 32; 119] ++ [10])))
+  = [EStreamStart; EDocumentStart false; EMappingStart 0 None; EScalar [107; 101; 121] Plain 0 None;
+     EScalar [45; 97; 32; 98; 10; 99; 35; 100; 58; 101; 32; 102] Plain 0 None;
+     EScalar [107; 50] Plain 0 None; EScalar [118; 32; 119] Plain 0 None; EMappingEnd; EDocumentEnd; EStreamEnd] /\
+  map fst (fst (run_str (45 :: 32 :: plain_render pctx_first pctx_more ++ [32; 10] ++ 10 :: 45 :: 32 :: [118; 32; 119] ++ [10])))
+  = [EStreamStart; EDocumentStart false; ESequenceStart 0 None; EScalar [45; 97; 32; 98; 10; 99; 35; 100; 58; 101; 32; 102] Plain 0 None;
+     EScalar [118; 32; 119] Plain 0 None; ESequenceEnd; EDocumentEnd; EStreamEnd] /\
+  (* one-line scalars: "k: a<LF>j: b" (no final line break) *)
+  map fst (fst (run_str ([107] ++ 58 :: 32 :: plain_render [97] [] ++ [] ++ 10 :: [106] ++ 58 :: 32 :: [98] ++ [])))
+  = [EStreamStart; EDocumentStart false; EMappingStart 0 None; EScalar [107] Plain 0 None; EScalar [97] Plain 0 None;
+     EScalar [106] Plain 0 None; EScalar [98] Plain 0 None; EMappingEnd; EDocumentEnd; EStreamEnd].
+Proof.
+  split; [reflexivity|].
+  split; [exact (proj1 (run_plain_value_sib [107; 101; 121] 2 pctx_first pctx_more [32; 10] [107; 50] [118; 32; 119] [10]
+                          eq_refl eq_refl ltac:(repeat constructor) eq_refl eq_refl eq_refl eq_refl eq_refl))|].
+  split; [exact (proj1 (run_plain_entry_sib 2 pctx_first pctx_more [32; 10] [118; 32; 119] [10]
+                          eq_refl ltac:(repeat constructor) eq_refl eq_refl eq_refl eq_refl))|].
+  exact (proj1 (run_plain_value_sib [107] 1 [97] [] [] [106] [98] [] eq_refl eq_refl ltac:(repeat constructor) eq_refl eq_refl eq_refl eq_refl eq_refl)).
+Qed.
+
+(* ---- T10: a FOLLOWER behind a quoted scalar in document context (Proofs/ScalarContext2Quoted*.v) --------------------- *)
+(* T5 / C04_quoted_ws_partial for every follower whose first character behind the blanks is a line feed or the end of the
+   input (single-quoted: the closing quote is not followed by a quote), WITH the input that is left. *)
+Theorem C04_quoted_brk_partial :
+  forall (F : nat) (single : bool) (n : nat) (first : list dq_item) (more : list (brk_layout * list dq_item))
+         (rest : list N) (s : sc strin),
+    (if single then sq_layout_wf n first more else dq_layout_wf n first more) = true ->
+    let src := if single then sq_render first more else dq_render first more in
+    si_chars (sc_in s) = quote_of single :: src ++ quote_of single :: rest ->
+    (nth 0 (drop_leading rest) 0 = 0 \/ nth 0 (drop_leading rest) 0 = 10) ->
+    (single = true -> (nth 0 rest 0 =? 39) = false) ->
+    (sc_indent s < Z.of_nat n)%Z ->
+    (sc_indent s <= Z.of_N (m_col (sc_mark s)) + 1)%Z ->
+    (2 * length (si_chars (sc_in s)) + 10 <= F)%nat ->
+    exists sp s',
+      scan_flow_scalar str_ops F single s = Ok ((sp, TScalar (style_of single) (dq_text first more)), s')
+      /\ sp_start sp = sc_mark s /\ si_chars (sc_in s') = drop_leading rest.
+Proof. exact scan_flow_scalar_brk. Qed.
+Print Assumptions C04_quoted_brk_partial.
+
+(* The quoted scalar -- single or double, EVERY presentation sq_layout_wf n / dq_layout_wf n allow -- is the value of the FIRST
+   pair of a two-pair top-level mapping (n >= 2) / the FIRST entry of a two-entry top-level sequence (n >= 1):
+       kw ": " quote rendering quote ws LF kw2 ": " w tail          "- " quote rendering quote ws LF "- " w tail
+   with ws, tail, kw, kw2, w and the NUL-freeness as in T9.  fetch_flow_scalar itself skips to the sibling line
+   (skip_to_next_token: the line feed allows a simple key there); the position behind it comes from the position invariant
+   through scan_flow_scalar and skip_to_next_token. *)
+Theorem C04_quoted_document_value_sibling : forall kw (single : bool) (n : nat) first more ws kw2 w tail,
+  key_ok kw = true -> (if single then sq_layout_wf n first more else dq_layout_wf n first more) = true -> (2 <= n)%nat ->
+  ws_only ws = true -> key_ok kw2 = true -> plain_layout_wf false 0 w [] = true -> ws_only tail = true ->
+  forallb (fun c => negb (c =? 0)) (kw ++ 58 :: 32 :: q_text single first more (ws ++ 10 :: kw2 ++ 58 :: 32 :: w ++ tail)) = true ->
+  map fst (fst (run_str (kw ++ 58 :: 32 :: q_text single first more (ws ++ 10 :: kw2 ++ 58 :: 32 :: w ++ tail))))
+  = [EStreamStart; EDocumentStart false; EMappingStart 0 None; EScalar kw Plain 0 None;
+     EScalar (dq_text first more) (style_of single) 0 None;
+     EScalar kw2 Plain 0 None; EScalar w Plain 0 None; EMappingEnd; EDocumentEnd; EStreamEnd]
+  /\ snd (run_str (kw ++ 58 :: 32 :: q_text single first more (ws ++ 10 :: kw2 ++ 58 :: 32 :: w ++ tail))) = PDone.
+Proof. exact run_quoted_value_sib. Qed.
+Print Assumptions C04_quoted_document_value_sibling.
+
+Theorem C04_quoted_document_entry_sibling : forall (single : bool) (n : nat) first more ws w tail,
+  (if single then sq_layout_wf n first more else dq_layout_wf n first more) = true -> (1 <= n)%nat ->
+  ws_only ws = true -> plain_layout_wf false 0 w [] = true -> ws_only tail = true ->
+  forallb (fun c => negb (c =? 0)) (45 :: 32 :: q_text single first more (ws ++ 10 :: 45 :: 32 :: w ++ tail)) = true ->
+  map fst (fst (run_str (45 :: 32 :: q_text single first more (ws ++ 10 :: 45 :: 32 :: w ++ tail))))
+  = [EStreamStart; EDocumentStart false; ESequenceStart 0 None; EScalar (dq_text first more) (style_of single) 0 None;
+     EScalar w Plain 0 None; ESequenceEnd; EDocumentEnd; EStreamEnd]
+  /\ snd (run_str (45 :: 32 :: q_text single first more (ws ++ 10 :: 45 :: 32 :: w ++ tail))) = PDone.
+Proof. exact run_quoted_entry_sib. Qed.
+Print Assumptions C04_quoted_document_entry_sibling.
+
+(* instances, every hypothesis evaluated: the three-line double-quoted scalar of C04_quoted_document_instances, a blank behind
+   the closing quote, an empty line, the sibling "k2: v w" / "- v w";  a single-quoted entry with '' and a CR LF fold *)
+Example C04_quoted_document_sibling_instances :
+  [107; 101; 121] ++ 58 :: 32 :: q_text false ctx_first ctx_more ([32; 10] ++ 10 :: [107; 50] ++ 58 :: 32 :: [118; 32; 119] ++ [10])
+  = [107; 101; 121; 58; 32; 34; 97; 32; 92; 116; 32; 10; 10; 32; 32; 9; 98; 32; 92; 10; 32; 32; 92; 120; 52; 49; 34; 32; 10; 10;
+     107; 50; 58; 32; 118; 32; 119; 10] /\
+  map fst (fst (run_str ([107; 101; 121] ++ 58 :: 32 :: q_text false ctx_first ctx_more ([32; 10] ++ 10 :: [107; 50] ++ 58 :: 32 :: [118; 32; 119] ++ [10]))))
+  = [EStreamStart; EDocumentStart false; EMappingStart 0 None; EScalar [107; 101; 121] Plain 0 None;
+     EScalar [97; 32; 9; 10; 98; 32; 65] DoubleQuoted 0 None;
+     EScalar [107; 50] Plain 0 None; EScalar [118; 32; 119] Plain 0 None; EMappingEnd; EDocumentEnd; EStreamEnd] /\
+  45 :: 32 :: q_text true [ILit 105; ILit 116; ILit 39; ILit 115] [(ctx_c, [ILit 115; ILit 111])] ([] ++ 10 :: 45 :: 32 :: [118] ++ [])
+  = [45; 32; 39; 105; 116; 39; 39; 115; 13; 10; 32; 115; 111; 39; 10; 45; 32; 118] /\
+  map fst (fst (run_str (45 :: 32 :: q_text true [ILit 105; ILit 116; ILit 39; ILit 115] [(ctx_c, [ILit 115; ILit 111])] ([] ++ 10 :: 45 :: 32 :: [118] ++ []))))
+  = [EStreamStart; EDocumentStart false; ESequenceStart 0 None; EScalar [105; 116; 39; 115; 32; 115; 111] SingleQuoted 0 None;
+     EScalar [118] Plain 0 None; ESequenceEnd; EDocumentEnd; EStreamEnd].
+Proof.
+  split; [reflexivity|].
+  split; [exact (proj1 (run_quoted_value_sib [107; 101; 121] false 2 ctx_first ctx_more [32; 10] [107; 50] [118; 32; 119] [10]
+                          eq_refl eq_refl ltac:(repeat constructor) eq_refl eq_refl eq_refl eq_refl eq_refl))|].
+  split; [reflexivity|].
+  exact (proj1 (run_quoted_entry_sib true 1 [ILit 105; ILit 116; ILit 39; ILit 115] [(ctx_c, [ILit 115; ILit 111])] [] [118] []
+                  eq_refl ltac:(repeat constructor) eq_refl eq_refl eq_refl eq_refl)).
+Qed.
